@@ -6,31 +6,30 @@
 mod verif_c14_display {
     use super::*;
 
-    //@ob id=C14.flags.bits props=C14 tier=quick kind=harness fns=plane/header.rs:DisplayFlags::from_booleans,plane/header.rs:DisplayFlags::weather
-    //@region all 64 combinations of the six display booleans: each accessor returns exactly its boolean (no group is switched by another group's letter)
+    //@ob id=C14.flags.letters props=C14 tier=quick kind=harness fns=plane/header.rs:DisplayFlags::from_arg_str bounded=14-concrete-strings
+    //@region -i letter strings "aAews" (default), "Q", "", "xyz", "wa", "seA", each letter doubled ("aa","ww","ss","AA","ee","QQ"), "aAewsA", "awaxa": w=weather, a=angles, s=speed, A=altitude, e=extra, Q=quiet and nothing else
     #[kani::proof]
-    fn c14_flags_bits() {
-        let (w, a, s, al, e, q): (bool, bool, bool, bool, bool, bool) = (kani::any(), kani::any(), kani::any(), kani::any(), kani::any(), kani::any());
-        let f = DisplayFlags::from_booleans(w, a, s, al, e, q);
-        assert!(f.weather() == w && f.angles() == a && f.speed() == s && f.altitude() == al && f.extra() == e && f.quiet() == q, "each column group is on exactly when its flag is given");
-        kani::cover!(true, "reach_end");
-    }
-
-    //@ob id=C14.flags.letters props=C14 tier=quick kind=harness fns=plane/header.rs:DisplayFlags::from_arg_str bounded=6-concrete-strings
-    //@region -i letter strings "aAews" (default), "Q", "", "xyz", "wa", "seA": w=weather, a=angles, s=speed, A=altitude, e=extra, Q=quiet and nothing else
-    #[kani::proof]
-    #[kani::unwind(8)]
+    #[kani::unwind(16)]
     fn c14_flags_letters() {
-        let cases: [(&str, [bool; 6]); 6] = [
+        let cases: [(&str, [bool; 6]); 14] = [
             ("aAews", [true, true, true, true, true, false]),
             ("Q", [false, false, false, false, false, true]),
             ("", [false; 6]),
             ("xyz", [false; 6]),
             ("wa", [true, true, false, false, false, false]),
             ("seA", [false, false, true, true, true, false]),
+            // a letter given more than once (e.g. `-i a -i a`, the values are concatenated) still means its own group only
+            ("aa", [false, true, false, false, false, false]),
+            ("ww", [true, false, false, false, false, false]),
+            ("ss", [false, false, true, false, false, false]),
+            ("AA", [false, false, false, true, false, false]),
+            ("ee", [false, false, false, false, true, false]),
+            ("QQ", [false, false, false, false, false, true]),
+            ("aAewsA", [true, true, true, true, true, false]),
+            ("awaxa", [true, true, false, false, false, false]),
         ];
         let mut i = 0;
-        while i < 6 {
+        while i < 14 {
             let f = DisplayFlags::from_arg_str(cases[i].0);
             let e = cases[i].1;
             assert!(f.weather() == e[0] && f.angles() == e[1] && f.speed() == e[2] && f.altitude() == e[3] && f.extra() == e[4] && f.quiet() == e[5], "-i letters map to their column groups");
